@@ -14,7 +14,7 @@ RULE = (
     "lines: Hypothesis lines of standalone tokens (IPv4/IPv6 in every spelling incl. leading zeros, upper case, "
     "/len, '::' at every legal position, IPv4 tails; near-misses; words) joined by arbitrary delimiters, under "
     "generated configurations; contexts: EVERY string left+core+right with left/right ranging over all strings of "
-    "length <= 1 (quick) / <= 2 (thorough) over the boundary alphabet '0125 69afg.:/_- ' and core over a table of "
+    "length <= 1 (quick) / <= 2 (thorough) over the boundary alphabet '0125 69afg.:/_- ' plus a non-ASCII digit and letter, and core over a table of "
     "address / near-miss cores (all i::j group splits, 7/8/9 groups, 255/256, 3/4/5 parts, leading zeros, /len, IPv4 "
     "tails, zones); atoms: EVERY sequence of <= 4 (quick) / <= 6 (thorough) atoms of {1,25,255,256,00,a,g,.,:,::,/,space}. "
     "longline: single physical lines of 7000/20000 address tokens (well over 64 KiB). Each string goes through anonymize_ip_addr (IPv6 then IPv4) and through FileAnonymizer.anonymize_io (a quarter of the "
@@ -137,7 +137,7 @@ REPLAY = {"longline": check_line, "lines": check_line, "contexts": check_enum, "
 
 # ---------------------------------------------------------------- enumerated spaces
 
-BOUNDARY = "0125" + "69" + "afg" + ".:/_- "
+BOUNDARY = "0125" + "69" + "afg" + ".:/_- " + "\u0664\u00e9"  # + a non-ASCII digit and a non-ASCII letter (both delimiters)
 
 
 def cores():
